@@ -51,7 +51,7 @@ TGatePass == Is("GatePass") /\ parked' = parked - 1 /\ now' = E.t
              /\ UNCHANGED <<cfg, phase, calls, byId, hi, gaps, cw, nSR, sw, nCR, cin, sin, preq,
                             hnds, hOf, flt, creg, sreg, base, pend, live, cregN>>
 
-TUCall == Is("UCall") /\ Timed(UCall(E.c, E.pay, MdF(E.md), E.n))
+TUCall == Is("UCall") /\ IF E.x = "bad" THEN Timed(UCallBad(E.c, MdF(E.md), E.n)) ELSE Timed(UCall(E.c, E.pay, MdF(E.md), E.n))
 TSOpen == Is("SOpen") /\ Timed(SOpen(E.c, E.k, MdF(E.md), E.n))
 TCancel == Is("Cancel") /\ Timed(Cancel(E.c))
 TCW == Is("CW") /\ Timed(ClientWrite(E.env))
@@ -65,6 +65,7 @@ THStart == Is("HStart") /\ Timed(HStart(E.h, E.c, E.k, E.pay, MdF(E.md), E.n))
 THRecv == Is("HRecv") /\ E.h \in DOMAIN hnds /\ now' = E.t /\ Stutter
 THRecvRet == Is("HRecvRet") /\ Timed(HRecvRet(E.h, E.res, E.pay))
 THSend == Is("HSend") /\ Timed(HSend(E.h, E.pay))
+THSendBad == Is("HSendBad") /\ Timed(HSendBad(E.h, E.res))
 THSendRet == Is("HSendRet") /\ Timed(HSendRet(E.h, E.res))
 THSetHdr == Is("HSetHdr") /\ Timed(HSetHdr(E.h, MdF(E.md), E.res))
 THSendHdr == Is("HSendHdr") /\ IF E.h \in DOMAIN hnds /\ hnds[E.h].kind = "unary"
@@ -115,7 +116,7 @@ TQuiesce == Is("Quiesce") /\ (SenderHol(E.h % 1000) => PrintT(<<"TRACE_DEVIATION
 TraceNext ==
   \/ TBegin \/ TBase \/ TUnwind \/ TEnd \/ TTick \/ TGatePark \/ TGatePass
   \/ TUCall \/ TSOpen \/ TCancel \/ TCW \/ TCWraw \/ TSR \/ TSW \/ TSWraw \/ TCR
-  \/ THStart \/ THRecv \/ THRecvRet \/ THSend \/ THSendRet \/ THSetHdr \/ THSendHdr \/ THSendHdrRet
+  \/ THStart \/ THRecv \/ THRecvRet \/ THSend \/ THSendBad \/ THSendRet \/ THSetHdr \/ THSendHdr \/ THSendHdrRet
   \/ THSetTrl \/ THRet \/ THCtxDone
   \/ TURet \/ TSOpenRet \/ TSSend \/ TSSendRet \/ TSSendBad \/ TSSendBadRet \/ TSClose \/ TSCloseRet \/ TSRecv \/ TSRecvRet
   \/ TSHdr \/ TSHdrRet \/ TSTrl
